@@ -363,7 +363,8 @@ Record src := mk_src {
   s_lnames : list Z;         (* request_template.params.layers *)
   s_srs : Z; s_fmts : Z;     (* supported_srs, supported_formats (equality classes) *)
   s_tcolor : option rgb; s_ttol : option Z;
-  s_covid : Z;               (* equality class of the coverage object, 0 = None *)
+  s_covid : Z;               (* equality class of (coverage object, its clip flag), 0 = None: _is_compatible
+                                compares the coverages and their clip flags *)
   s_dims : Z                 (* query.dimensions_for_params(fwd_req_params), equality class *)
 }.
 
@@ -425,14 +426,14 @@ Fixpoint w_is_opaque (w : wlayer) : bool :=
   match w with
   | WLeaf _ _ srcs => existsb src_is_opaque srcs
   | WGroup _ _ (Some (_, srcs)) _ => existsb src_is_opaque srcs
-  | WGroup _ _ None ch => existsb w_is_opaque ch
+  | WGroup _ _ None ch => existsb (fun c => w_renders c && w_is_opaque c) ch   (* only sub layers that are drawn *)
   end.
 
 Fixpoint w_map_layers (w : wlayer) : list (Z * list src) :=
   match w with
   | WLeaf n _ srcs => match srcs with [] => [] | _ => [(n, srcs)] end
   | WGroup _ _ (Some (n, srcs)) _ => match srcs with [] => [] | _ => [(n, srcs)] end
-  | WGroup _ _ None ch => flat_map w_map_layers ch
+  | WGroup _ _ None ch => flat_map (fun c => if w_renders c then w_map_layers c else []) ch
   end.
 
 (* resolution range of a WMS layer / group (layer.py merge_layer_res_ranges, grid.py merge_resolution_range):
@@ -475,6 +476,41 @@ Fixpoint select_layers (prune : bool) (req : list wlayer) (acc : odict) : odict 
 Definition render_layers (prune : bool) (req : list wlayer) : list src :=
   flat_map snd (select_layers prune req []).
 
+(* ---- WMSServer.map with authorisation: all rendering layers are collected, the authorize callback decides
+   per layer name (0 permitted, 1 removed - an implicit member of a group that is denied, 2 limited_to an area),
+   and only then the is_opaque optimisation drops what lies below an opaque layer of which nothing was removed
+   or limited.  A limited source is wrapped in a LimitedLayer: it is clipped to the area and never combined. *)
+Fixpoint od_get (d : odict) (k : Z) : option (list src) :=
+  match d with [] => None | (k', v) :: r => if k' =? k then Some v else od_get r k end.
+
+Definition src_limited (s : src) : src :=
+  mk_src (s_ids s) false (s_res_ok s) (s_transparent s) (s_opacity s) (s_cov s) (s_url s) (s_lnames s)
+         (s_srs s) (s_fmts s) (s_tcolor s) (s_ttol s) (s_covid s) (s_dims s).
+
+(* filter_actual_layers *)
+Definition filter_auth (auth : Z -> Z) (d : odict) : odict :=
+  flat_map (fun kv => if auth (fst kv) =? 1 then []
+                      else if auth (fst kv) =? 2 then [(fst kv, map src_limited (snd kv))]
+                      else [kv]) d.
+
+Fixpoint prune_pass (prune : bool) (auth : Z -> Z) (all : odict) (req : list wlayer) (acc : odict) : odict :=
+  match req with
+  | [] => acc
+  | w :: r =>
+    if w_renders w then
+      let names := map fst (w_map_layers w) in
+      let permitted := filter (fun n => match od_get all n with Some _ => true | None => false end) names in
+      let restricted := negb (Nat.eqb (length permitted) (length names))
+                        || existsb (fun n => auth n =? 2) permitted in
+      let acc := if prune && negb restricted && w_is_opaque w then [] else acc in
+      prune_pass prune auth all r
+                 (fold_left (fun a n => match od_get all n with Some v => od_set a n v | None => a end) permitted acc)
+    else prune_pass prune auth all r acc
+  end.
+
+Definition select_layers_auth (prune : bool) (auth : Z -> Z) (req : list wlayer) : odict :=
+  prune_pass prune auth (filter_auth auth (select_layers false req [])) req [].
+
 (* LayerRenderer.render + merger.add: sources that answer (fetch gives Some) in order *)
 Fixpoint rendered (fetch : src -> option layer) (l : list src) : list layer :=
   match l with
@@ -485,6 +521,12 @@ Fixpoint rendered (fetch : src -> option layer) (l : list src) : list layer :=
   end.
 
 (* WMSServer.map without authorisation, attribution and srs_extents *)
+Definition wms_map_auth (prune combine : bool) (auth : Z -> Z) (fetch : src -> option layer)
+           (n : nat) (o : ropts) (req : list wlayer) : mresult :=
+  let rl := flat_map snd (select_layers_auth prune auth req) in
+  let rl := if combine then combined_layers rl else rl in
+  merge n o (rendered fetch rl) None.
+
 Definition wms_map (prune combine : bool) (fetch : src -> option layer)
            (n : nat) (o : ropts) (req : list wlayer) : mresult :=
   let rl := render_layers prune req in
